@@ -91,6 +91,16 @@ func DFS(cfg SchedConfig) SchedResult {
 		}
 		return true
 	}
+	// determinism self-check: the default execution, replayed, must take the same decisions at the same points
+	// (otherwise some source of nondeterminism is not owned by the scheduler and no failure could be trusted).
+	{
+		a := rt.Run(rt.Options{MaxSteps: cfg.MaxSteps, SwitchCost: cfg.SwitchCost}, cfg.Body)
+		b := rt.Run(rt.Options{Prefix: chosen(a), MaxSteps: cfg.MaxSteps, SwitchCost: cfg.SwitchCost}, cfg.Body)
+		if shape(a) != shape(b) || a.Aborted != "" || b.Aborted != "" {
+			res.EngineError = fmt.Sprintf("nondeterministic execution: replaying the default schedule gave a different run (%s | %s) vs (%s | %s)", shape(a), a.Aborted, shape(b), b.Aborted)
+			return res
+		}
+	}
 	for b := 0; b <= cfg.Bound; b++ {
 		n0 := res.Execs
 		if !explore(nil, b, true) {
@@ -120,4 +130,15 @@ func (r SchedResult) OutcomeKeys() []string {
 	}
 	sort.Strings(ks)
 	return ks
+}
+
+// shape summarises the decision structure of an execution.
+func shape(x *rt.Exec) string {
+	h := uint64(1469598103934665603)
+	for _, c := range x.Choices {
+		for _, b := range []byte(fmt.Sprintf("%s/%d/%d;", c.Kind, c.N, c.Chosen)) {
+			h = (h ^ uint64(b)) * 1099511628211
+		}
+	}
+	return fmt.Sprintf("steps=%d choices=%d hash=%x deadlock=%v livelock=%v crash=%v", x.Steps, len(x.Choices), h, x.Deadlock, x.Livelock, x.Crash != "")
 }
